@@ -55,6 +55,9 @@ func (bvl *blockCommitVoteList) VerifyBlock(block module.BlockData, validators m
 	for i, item := range bvl.Items {
 		msg.Timestamp = item.Timestamp
 		msg.setSignature(item.Signature)
+		if msg.address() == nil {
+			return nil, errors.Errorf("bad signature at index %d in vote list", i)
+		}
 		index := validators.IndexOf(msg.address())
 		if index < 0 {
 			return nil, errors.Errorf("bad voter %v at index %d in vote list", msg.address(), i)
@@ -248,6 +251,9 @@ func (vl *CommitVoteList) toVoteList(
 	for _, item := range vl.Items {
 		msg.Timestamp = item.Timestamp
 		msg.setSignature(item.Signature)
+		if msg.address() == nil {
+			return nil, errors.Errorf("bad signature in vote list")
+		}
 		vIdx := validators.IndexOf(msg.address())
 		if vIdx < 0 {
 			return nil, errors.Errorf("not a validator address=%s", msg.address().String())
